@@ -15,10 +15,11 @@ import random
 from .. import core
 
 LEVEL = "model_checking"
+WIDE = 10000  # serial offset of the "wide" rendering variant (serial fills columns 7-11)
 
 # Deviation constants that describe the *current* tree (see DESIGN.md, C07).
-DEVIANT = {"BlankStops": "TRUE", "EndEmptyRaises": "TRUE"}
-CODE_CONSTS = {"BlankStops": "FALSE", "EndEmptyRaises": "FALSE"}
+DEVIANT = {"BlankStops": "TRUE", "EndEmptyRaises": "TRUE", "GluedKeepsWater": "TRUE"}
+CODE_CONSTS = {"BlankStops": "FALSE", "EndEmptyRaises": "FALSE", "GluedKeepsWater": "FALSE"}
 if os.environ.get("VERIF_C07_MODEL") == "deviant":  # experimentation only
     CODE_CONSTS = DEVIANT
 
@@ -26,7 +27,7 @@ if os.environ.get("VERIF_C07_MODEL") == "deviant":  # experimentation only
 def cfg_text(maxlen, consts, emit, inv, spec="Spec", alphabet="MCAlphabet", dw="{FALSE, TRUE}"):
     return (f"SPECIFICATION {spec}\nCONSTANTS\n  MaxLen = {maxlen}\n"
             f"  BlankStops = {consts['BlankStops']}\n  EndEmptyRaises = {consts['EndEmptyRaises']}\n"
-            f"  DropWaterChoices = {dw}\n  Emit = {emit}\nINVARIANT {inv}\n")
+            f"  GluedKeepsWater = {consts['GluedKeepsWater']}\n  DropWaterChoices = {dw}\n  Emit = {emit}\nINVARIANT {inv}\n")
 
 
 # ------------------------------------------------------------------ concretisation
@@ -35,16 +36,17 @@ def atom_line(a, idx):
     nm = a["nm"]
     name = nm if len(nm) == 4 else " " + nm.ljust(3)
     x, y, z = 1.5 * idx, -2.25 * idx, 0.125 * idx + 10
-    line = (f"{rec}{idx:5d} {name}{a['alt'] or ' '}{a['rn']:>3s} {a['ch'] or ' '}{a['rs']:4d}{a['ic'] or ' '}   "
-            f"{x:8.3f}{y:8.3f}{z:8.3f}{1.0:6.2f}{10.0:6.2f}          {nm[0]:>2s}")
     fmt = a.get("fmt", "full")
+    serial = idx + (WIDE if fmt == "wide" else 0)
+    line = (f"{rec}{serial:5d} {name}{a['alt'] or ' '}{a['rn']:>3s} {a['ch'] or ' '}{a['rs']:4d}{a['ic'] or ' '}   "
+            f"{x:8.3f}{y:8.3f}{z:8.3f}{1.0:6.2f}{10.0:6.2f}          {nm[0]:>2s}")
     if fmt == "cut66":
         line = line[:66]
     elif fmt == "cut54":
         line = line[:54]
     elif fmt == "trail":
         line = line + "      "
-    elif fmt == "full":
+    elif fmt in ("full", "wide"):
         line = line.ljust(80)
     return line + ("\r\n" if fmt == "crlf" else "\n")
 
@@ -102,7 +104,7 @@ def observe(text, dw, path):
     for ch in bio.chains:
         chains.append({"id": ch.chain_id, "residues": [
             {"ch": r.chain_id, "rs": r.res_seq, "ic": r.ins_code, "rn": r.name,
-             "atoms": [{"nm": a.name, "i": a.serial} for a in r.atoms]} for r in ch.residues]})
+             "atoms": [{"nm": a.name, "i": a.serial % WIDE} for a in r.atoms]} for r in ch.residues]})
     return {"err": "", "chains": chains}
 
 
@@ -142,7 +144,8 @@ def validate(ctx, alphabet, traces, label):
         if isinstance(v, list) and v and v[0] == "T":
             got[v[1]] = (v[2], v[3], v[4])
     if len(got) != len(traces):
-        raise core.MachineryError(f"trace validation {label}: {len(got)} verdicts for {len(traces)} traces")
+        raise core.MachineryError(f"trace validation {label}: {len(got)} verdicts for {len(traces)} traces; "
+                                  f"unparsed={r.unparsed[:3]} tail={r.out[-1500:]}")
     ctx.traces += len(traces)
     return got
 
@@ -270,7 +273,7 @@ def _work_ex(args):
 def run(ctx):
     rng = random.Random(ctx.seed)
     maxlen = 4 if ctx.quick else 5
-    ctx.rule = ("TLC enumerates every file of <= MaxLen lines over the 16-symbol alphabet of MC_PdbReader x "
+    ctx.rule = ("TLC enumerates every file of <= MaxLen lines over the 18-symbol alphabet of MC_PdbReader x "
                 "{drop-water on, off}; each is rendered to PDB text and read by the real get_molecule/"
                 "drop_water/setup_molecule.  Non-trivial = well-formed file with at least one coordinate line "
                 "and at least one non-coordinate line or duplicate/alternate/insertion/blank-chain atom; "
@@ -301,7 +304,7 @@ def run(ctx):
 
     # (R) emission of every file with the model's result
     open(cfg, "w").write(cfg_text(maxlen, CODE_CONSTS, "TRUE", "EmitInv"))
-    r3 = core.run_tlc("MC_PdbReader", cfg, ctx.work, workers=1, timeout=3000, heap="6g")
+    r3 = core.run_tlc("MC_PdbReader", cfg, ctx.work, workers=8, timeout=3000, heap="6g")
     core.need_ok(r3, "MC_PdbReader/emit")
     ctx.add_tlc(r3, "emission of cases")
     alphabet = None
@@ -326,7 +329,7 @@ def run(ctx):
     for n, (c, o) in enumerate(zip(cases, observed)):
         kinds = [alphabet[s - 1]["k"] for s in c["file"]]
         if c["wf"] and "atom" in kinds and (len(set(kinds)) > 1 or len(kinds) > len(set(c["file"]))
-                                            or any(s in (2, 3, 4, 7) for s in c["file"])):
+                                            or any(s in (2, 3, 4, 7, 10, 11) for s in c["file"])):
             ctx.nontrivial.add((c["dw"], tuple(c["file"])))
         t = {"id": n, "dw": c["dw"], "file": c["file"], "res": o}
         if norm(o) != norm(c["res"]):
